@@ -1,4 +1,5 @@
 """ODX-XML emission for descriptions (desc.py) and loading through the real odxtools loader."""
+import zlib
 from xml.sax.saxutils import escape
 from xml.etree import ElementTree as ET
 
@@ -22,19 +23,24 @@ def val_str(v) -> str:
     return escape(str(v))
 
 
-def _b(x):
-    return "true" if x else "false"
+def _b(x, salt=""):
+    """xsd:boolean has two lexical forms per value: true/1 and false/0.  The spelling is a deterministic function of the
+    emitted content (`salt`: enclosing object + the description of the attribute's owner), so that a witness replays with
+    the same document and both the accelerated and the pure-backend interpreter of C02 see the same XML."""
+    numeric = zlib.crc32(salt.encode("utf-8", "replace")) & 1 if salt else 0
+    return ("1" if x else "0") if numeric else ("true" if x else "false")
 
 
 def dct_xml(dct, ctx) -> str:
     a = f' BASE-DATA-TYPE="{dct.bt}"'
     if dct.enc is not None:
         a += f' BASE-TYPE-ENCODING="{dct.enc}"'
+    salt = f"{ctx}|{dct!r}"
     if dct.hl is not None:
-        a += f' IS-HIGHLOW-BYTE-ORDER="{_b(dct.hl)}"'
+        a += f' IS-HIGHLOW-BYTE-ORDER="{_b(dct.hl, salt + "|hl")}"'
     if isinstance(dct, D.Std):
         if dct.condensed is not None:
-            a += f' IS-CONDENSED="{_b(dct.condensed)}"'
+            a += f' IS-CONDENSED="{_b(dct.condensed, salt + "|condensed")}"'
         body = f"<BIT-LENGTH>{dct.bitlen}</BIT-LENGTH>"
         if dct.mask is not None:
             body += "<BIT-MASK>%0*X</BIT-MASK>" % (max(2, (dct.mask.bit_length() + 7) // 8 * 2), dct.mask)
@@ -68,6 +74,7 @@ def compu_xml(cm) -> str:
                 "</COMPU-RATIONAL-COEFFS></COMPU-SCALE></COMPU-SCALES></COMPU-INTERNAL-TO-PHYS></COMPU-METHOD>")
     if isinstance(cm, D.TextTable):
         sc = "".join(f"<COMPU-SCALE><LOWER-LIMIT>{lo}</LOWER-LIMIT><UPPER-LIMIT>{hi}</UPPER-LIMIT>"
+                     + (f"<COMPU-INVERSE-VALUE><V>{cm.inv[t]}</V></COMPU-INVERSE-VALUE>" if cm.inv and t in cm.inv else "") +
                      f"<COMPU-CONST><VT>{escape(t)}</VT></COMPU-CONST></COMPU-SCALE>" for lo, hi, t in cm.scales)
         return ("<COMPU-METHOD><CATEGORY>TEXTTABLE</CATEGORY><COMPU-INTERNAL-TO-PHYS><COMPU-SCALES>" + sc +
                 "</COMPU-SCALES></COMPU-INTERNAL-TO-PHYS></COMPU-METHOD>")
@@ -201,7 +208,7 @@ class Emitter:
             if d.default is not None:
                 sr = f'<STRUCTURE-REF ID-REF="{self.dop(d.default[1], ctx)}"/>' if d.default[1] is not None else ""
                 dc = f"<DEFAULT-CASE><SHORT-NAME>{d.default[0]}</SHORT-NAME>{sr}</DEFAULT-CASE>"
-            self.sec["mux"].append(f'<MUX ID="{i}" IS-VISIBLE="{_b(d.visible)}"><SHORT-NAME>{i}</SHORT-NAME><BYTE-POSITION>{d.bytepos}</BYTE-POSITION>'
+            self.sec["mux"].append(f'<MUX ID="{i}" IS-VISIBLE="{_b(d.visible, i + "|visible")}"><SHORT-NAME>{i}</SHORT-NAME><BYTE-POSITION>{d.bytepos}</BYTE-POSITION>'
                                    f'<SWITCH-KEY><BYTE-POSITION>{d.switch_bytepos}</BYTE-POSITION>{bp}'
                                    f'<DATA-OBJECT-PROP-REF ID-REF="{self.dop(d.switch_dop, ctx)}"/></SWITCH-KEY>{dc}'
                                    + (f"<CASES>{cases}</CASES>" if cases else "") + "</MUX>")
